@@ -17,6 +17,7 @@ LOG_OK = (
     "len(cd) == len(cf) and len(cs) == len(cf)"
     f" and all({IN('cf[i]', 'hash_formats_to_generate')} for i in range(len(cf)))"
     " and all(cd[i] == current_hash_lookup[cf[i]] for i in range(len(cf)))"
+    f" and all(is_digest_text(cd[i], cf[i], {BYTES}) for i in range(len(cf)))"
 )
 DIGESTS_OK = f"all(is_digest_text(current_hash_lookup[k], k, {BYTES}) for k in current_hash_lookup.keys())"
 GEN_KEYS = (
@@ -25,9 +26,11 @@ GEN_KEYS = (
 
 contract(
     "ascmhl.commands.seal_file_path",
-    bounded="328 of 358 obligations discharge; the preservation of the ghost call-log invariants through the two judging loops "
-    "(whole-field heap havoc by append_file_hash + tuple-valued result dict) stays `unknown` - the ordering of judgements is checked "
-    "by the C04 small-world driver on all format-subset sequences instead",
+    slices=16,
+    bounded="478 of 498 obligations discharge (all postconditions except the last one, all of loops 0-1, most of loops 2-3); the "
+    "preservation of the nested-quantifier ordering invariant of the second judging loop and of the result-dict invariants stays "
+    "`unknown` in z3 and cvc5 (the same obligations discharge in under a second on the shorter paths) - the ordering of judgements is "
+    "checked by the C04 small-world driver on all format-subset sequences instead",
     params={"existing_history": "MHLHistory", "file_path": "str", "hash_formats": "list[str]", "session": "MHLGenerationCreationSession"},
     returns="dict[str,tuple[str,bool]]",
     locals={"hash_formats_to_generate": "list[str]", "hash_result_lookup": "dict[str,tuple[str,bool]]", "existing_hash_formats": "list[str]",
@@ -35,12 +38,21 @@ contract(
     exposes={"existing_hash_formats": "list[str]", "hash_formats_to_generate": "list[str]"},
     ghost_init={"cf": ("list[str]", "empty_strs()"), "cd": ("list[str]", "empty_strs()"), "cs": ("list[bool]", "empty_bools()")},
     ghost_updates={"success &= session.append_file_hash(": [("cf", "append(cf, hash_format)"), ("cd", "append(cd, current_hash_lookup[hash_format])"), ("cs", "append(cs, success)")]},
+    lemmas={
+        "before: for hash_format in hash_formats_to_generate:": [
+            "all(L_member(existing_hash_formats, hash_formats_to_generate[i]) for i in range(len(hash_formats_to_generate)))",
+            "all(L_member(hash_formats_to_generate, existing_hash_formats[j]) for j in range(len(existing_hash_formats)))",
+            "all(L_member(cf, existing_hash_formats[j]) for j in range(len(existing_hash_formats)))",
+        ],
+    },
     requires=[
         "len(hash_formats) > 0",
         "all(is_format(f) for f in hash_formats)",
         "existing_history.asc_mhl_path is not None and existing_history.asc_mhl_path != ''",
         "session.root_history == existing_history",
         "p_isabs(file_path)",
+        # the history the file is routed to has an ascmhl folder (true for every history object load_from_path builds)
+        "not route_p_none(existing_history, existing_history.get_relative_file_path(file_path))",
     ],
     modifies=["*.new_hash_lists", "*.media_hashes", "*.media_hashes_path_map", "*.root_media_hash", "*.hash_entries", "*.media_hash"],
     logs=True,
@@ -68,21 +80,39 @@ contract(
                            "all(is_format(f) for f in hash_formats_to_generate)",
                            f"all(not ({IN('existing_hash_formats[j]', 'hash_formats')}) or {IN('existing_hash_formats[j]', 'hash_formats_to_generate')} for j in range(len(existing_hash_formats)))",
                            f"len(existing_hash_formats) == 0 or any({IN('hash_formats_to_generate[i]', 'existing_hash_formats')} for i in range(len(hash_formats_to_generate)))",
-                           "len(hash_formats_to_generate) >= _i"],
-                lemmas=["L_member(hash_formats_to_generate, _seq[_i])"]),
+                           "_i == 0 or len(hash_formats_to_generate) >= 1"],
+                lemmas=["L_member(hash_formats_to_generate, _seq[_i])",
+                        "all(L_member(hash_formats_to_generate, existing_hash_formats[j]) for j in range(len(existing_hash_formats)))"]),
         2: Loop(invariant=[LOG_OK, DIGESTS_OK, GEN_KEYS,
                            f"all({IN('cf[i]', 'existing_hash_formats')} for i in range(len(cf)))",
                            f"all(not ({IN('_seq[j]', 'hash_formats_to_generate')}) or {IN('_seq[j]', 'cf')} for j in range(_i))",
-                           "existing_hashes_verified == all(cs[j] for j in range(len(cs)))",
+                           "not existing_hashes_verified or all(cs[j] for j in range(len(cs)))",
+                           "existing_hashes_verified or any(not cs[j] for j in range(len(cs)))",
                            f"all(is_digest_text(hash_result_lookup[k][0], k, {BYTES}) for k in hash_result_lookup.keys())",
                            f"all(not ({IN('_seq[j]', 'hash_formats')} and {IN('_seq[j]', 'hash_formats_to_generate')}) or _seq[j] in hash_result_lookup for j in range(_i))",
                            "_seq == existing_hash_formats"],
-                lemmas=["L_member(hash_formats_to_generate, _seq[_i])", "L_member(hash_formats, _seq[_i])"]),
+                lemmas=["L_member(hash_formats_to_generate, _seq[_i])", "L_member(hash_formats, _seq[_i])",
+                        "L_member(current_hash_lookup.keys(), _seq[_i])",
+                        "all(L_member(cf, _seq[j]) for j in range(len(_seq)))"]),
         3: Loop(invariant=[LOG_OK, DIGESTS_OK, GEN_KEYS,
                            f"all({IN('cf[i]', 'existing_hash_formats')} or all(not ({IN('cf[j]', 'existing_hash_formats')}) or (cs[j] and j < i) for j in range(len(cf))) for i in range(len(cf)))",
                            f"all(is_digest_text(hash_result_lookup[k][0], k, {BYTES}) for k in hash_result_lookup.keys())",
-                           "_seq == hash_formats_to_generate"],
-                lemmas=["L_member(existing_hash_formats, _seq[_i])", "L_member(hash_formats, _seq[_i])"]),
+                           "_seq == hash_formats_to_generate",
+                           # judgements of recorded formats all succeeded if the flag still says so; a cleared flag means one was made
+                           f"not existing_hashes_verified or all(not ({IN('cf[j]', 'existing_hash_formats')}) or cs[j] for j in range(len(cf)))",
+                           "existing_hashes_verified or len(cf) >= 1",
+                           f"len(existing_hash_formats) == 0 or (len(cf) >= 1 and {IN('cf[0]', 'existing_hash_formats')})",
+                           f"len(cf) >= 1 or all({IN('_seq[j]', 'existing_hash_formats')} for j in range(_i))",
+                           # what loop 2 established about the recorded formats survives (cf and the result only grow)
+                           f"all(not ({IN('existing_hash_formats[j]', 'hash_formats_to_generate')}) or {IN('existing_hash_formats[j]', 'cf')} for j in range(len(existing_hash_formats)))",
+                           f"all(not ({IN('existing_hash_formats[j]', 'hash_formats')} and {IN('existing_hash_formats[j]', 'hash_formats_to_generate')}) or existing_hash_formats[j] in hash_result_lookup for j in range(len(existing_hash_formats)))",
+                           f"all(not ({IN('_seq[j]', 'hash_formats')}) or {IN('_seq[j]', 'existing_hash_formats')} or _seq[j] in hash_result_lookup for j in range(_i))",
+                           ],
+                lemmas=["L_member(existing_hash_formats, _seq[_i])", "L_member(hash_formats, _seq[_i])",
+                        "L_member(current_hash_lookup.keys(), _seq[_i])",
+                        "all(L_member(cf, existing_hash_formats[j]) for j in range(len(existing_hash_formats)))",
+                        "all(L_member(hash_result_lookup.keys(), existing_hash_formats[j]) for j in range(len(existing_hash_formats)))",
+                        "all(L_member(hash_result_lookup.keys(), _seq[j]) for j in range(len(_seq)))"]),
     },
     props=["C04", "C01", "C02"],
 )
